@@ -81,5 +81,8 @@ class findings_c:
                 declared.setdefault(m.package, set()).add(d.name)
         return all(name in declared.get(pkg, set()) for m in files for pkg, name in m.imports)
 
+    def ensures_init_only_package_declared(out_dir_path, result):
+        return any("fun only_in_init(" in t for t in _stubs(out_dir_path).values())
+
     def ensures_callable_attribute_typed(out_dir_path, result):
         return not any(re.search(r"attr callable_attr\s*$", t, re.M) for t in _stubs(out_dir_path).values())
